@@ -27,6 +27,7 @@ from zope.interface import implementer
 from zope.interface.declarations import Declaration
 from zope.interface.interface import InterfaceClass
 import zope.interface.declarations as D
+from zope.interface import ro as RO
 
 COUNTER = [0]
 
@@ -182,7 +183,15 @@ class World:
         else:
             raise ValueError("unknown op " + kind)
         self.sweep()
-        return {"node": node, "ops": self.pending, "snap": self.snap()}
+        # coverage information only: is the C3 order of the touched specification inconsistent
+        # (so that the legacy fallback was used)?
+        incons = False
+        if node in self.nodes:
+            try:
+                RO.ro(self.nodes[node], strict=True)
+            except RO.InconsistentResolutionOrderError:
+                incons = True
+        return {"node": node, "ops": self.pending, "snap": self.snap(), "incons": incons}
 
 
 def run_case(k, case):
